@@ -1886,8 +1886,8 @@ int x509_certs_verify_tlcp(const uint8_t *certs, size_t certslen, int certs_type
 		kenc_cert_type = X509_cert_server_key_encipher;
 		break;
 	case X509_cert_chain_client:
-		sign_cert_type = X509_cert_server_auth;
-		kenc_cert_type = X509_cert_server_key_encipher;
+		sign_cert_type = X509_cert_client_auth;
+		kenc_cert_type = X509_cert_client_key_encipher;
 		break;
 	default:
 		error_print();
